@@ -21,7 +21,10 @@ func SendAccountDebitRequest(
 	ue *chf_context.ChfUe,
 	ccr *charging_datatype.AccountDebitRequest,
 ) (*charging_datatype.AccountDebitResponse, error) {
-	ue.AbmfMux.Handle("CCA", HandleCCA(ue.AcctChan))
+	// the answer to this request arrives on a channel of its own: an answer nobody waits for any more
+	// is dropped instead of reaching a later request or blocking the handler
+	answer := make(chan *diam.Message, 1)
+	ue.AbmfMux.Handle("CCA", HandleCCA(answer))
 	abmfDiameter := factory.ChfConfig.Configuration.AbmfDiameter
 	addr := abmfDiameter.HostIPv4 + ":" + strconv.Itoa(abmfDiameter.Port)
 	conn, err := ue.AbmfClient.DialNetworkTLS(abmfDiameter.Protocol, addr, abmfDiameter.Tls.Pem, abmfDiameter.Tls.Key)
@@ -53,7 +56,7 @@ func SendAccountDebitRequest(
 	}
 
 	select {
-	case m := <-ue.AcctChan:
+	case m := <-answer:
 		var cca charging_datatype.AccountDebitResponse
 		if errMarshal := m.Unmarshal(&cca); err != nil {
 			return nil, fmt.Errorf("Failed to parse message from %v", errMarshal)
@@ -69,6 +72,9 @@ func HandleCCA(abmfChan chan *diam.Message) diam.HandlerFunc {
 	return func(c diam.Conn, m *diam.Message) {
 		logger.AcctLog.Tracef("Received CCA from %s", c.RemoteAddr())
 
-		abmfChan <- m
+		select {
+		case abmfChan <- m:
+		default:
+		}
 	}
 }
